@@ -41,7 +41,7 @@ MANIFEST_ENTRY = {
             "Butterworth envelope, parallax gradient / sign, aperture weight, obf / mf normalisation of reconstruct). Proved: "
             "batch_invariant / batch_size_invariant (any partition of the BF pixels, any order, all five kernels, both passes; any "
             "carrier whose + is a commutative monoid) and batch_invariant_full for the whole model incl. the formulas; linear_in_stack "
-            "(+ _dft, _full); submask_recombine; mapping_correct / mapping_in_range; alias table; generated = spec for probe, gamma "
+            "(+ _dft, _full); submask_recombine (+ _full: the whole model incl. formulas and aperture weights); mapping_correct / mapping_in_range; alias table; generated = spec for probe, gamma "
             "factor and the five kernel branches; kernel_linear_in_spectrum (every kernel = spectrum x factor on a unit spectrum); "
             "|gamma|^2 power >= 0; normalisation >= 1e-8 > 0 and = the skeleton's normOf; Butterworth with None / 0 cut-offs = 1; "
             "aperture weight = aperture^2 in [0,1], independent of the aberrations; parallax_gradient_eq_shift (grad_k of the "
@@ -54,8 +54,7 @@ MANIFEST_ENTRY = {
             "faults injected into callees part-way) and argument objects reused and rewritten in place.",
     "note": "Partial: the parallax limits are proved per pixel under two DFT identities taken as hypotheses on the FFT pair (DC bin = "
             "N*mean and tiled spectrum = zero-interleaved image; ifft2 after fft2 = id) - the full closed forms are measured against "
-            "the real code on every run; sub-mask recombination is proved for the skeleton (factors of a pixel = function of the "
-            "pixel, which the whole model has by construction) but not restated for reconstructFull; float32 evaluation of the "
+            "the real code on every run; float32 evaluation of the "
             "formulas (hard aperture edge, sign(sin chi) near zeros, gamma/|gamma| for tiny gamma) is measured with those grid "
             "points masked and counted; float32 summation order is measured (batch-invariance tolerance 1e-5 relative, times the "
             "parallax phase conditioning), not proved. The property does not state the kernel formulas: a changed formula that keeps "
@@ -762,7 +761,7 @@ def run_kernel_full(ctx, drv, case, dp, cap, impl, sub, floor, cond, mapping, st
         ok &= check("grad_k", gm, grad_k.double().numpy(), 2e-5 if maxabs(gm) > 0 else 1e-12, scale=max(maxabs(gm), 1e-30) if maxabs(gm) > 0 else 1.0)
         chi, sm, sr = unfl(o["chi"]), unfl(o["sign"]), sign_q.double().numpy().ravel()
         shaky = np.abs(np.sin(chi)) < 2e-5 * (1.0 + np.abs(chi))     # sign(sin(chi)) is decided by float32 rounding there
-        shaky[0] = False                                             # chi(0) = 0 exactly on both sides
+        shaky &= chi != 0.0                                          # chi = 0 exactly (q = 0, or no coefficient): sign 0 on both sides
         ctx.dist["kernel-full:sign-points-ill-conditioned"] += int(shaky.sum())
         ill |= bool(shaky.any())
         ctx.count()
@@ -1427,7 +1426,7 @@ def run_bad_step(ctx, hc, t, st, dp, settings, odict, m, bits, fb, gpts):
 
 
 def run_histories(ctx, drv, rng):
-    for idx in range(ctx.n(30, 160)):
+    for idx in range(ctx.n(30, 120)):
         hc = gen_history(rng.fork(idx), idx)
         guarded(ctx, hc, run_history, ctx, drv, hc)
 
@@ -1661,7 +1660,7 @@ def run_repr_case(ctx, rc):
 
 
 def run_repr_cases(ctx, rng):
-    for idx in range(ctx.n(20, 80)):
+    for idx in range(ctx.n(20, 60)):
         rc = gen_repr_case(rng.fork(idx), idx)
         guarded(ctx, rc, run_repr_case, ctx, rc["repr_case"])
 
@@ -1772,7 +1771,7 @@ def run(ctx):
         run_aliases(ctx, drv, ctx.rng.fork(999))
         guarded(ctx, {"defaults_case": True}, run_defaults, ctx, ctx.rng.fork(995))
         run_crop_cases(ctx, ctx.rng.fork(998))
-        nprob = ctx.n(50, 400)
+        nprob = ctx.n(50, 300)
         for idx in range(nprob):
             rng = ctx.rng.fork(idx)
             case = gen_case(rng, idx)
